@@ -225,7 +225,7 @@ PROPS = {
                       "credited-amounts machine of Ledger.v for every pattern of failing payouts and burns, so two runs of one history that differ only in "
                       "those failures credit every account, the burn and the unbooked remainder identically after every prefix, and settled balances are "
                       "equal exactly. The real keeper runs over a fault-injecting BankKeeper; "
-                      "the registered invariants are evaluated after every block and final balances compared with a fault-free twin.",
+                      "the registered invariants are evaluated after every block and final balances compared with a fault-free twin. Failing sweeps, one sub-distributor: collecting x + y at once instead of x and y separately changes every named share by at most one 10^-18 unit and loses nothing (Postponed.v).",
     },
     "C18": {
         "title": "Emitted events report the amounts that actually moved",
